@@ -361,3 +361,130 @@ def run_framing(cases):
 
     vloop.run(main)
     return out
+
+
+# ---------------------------------------------------------------------------
+# C06 outbound framing
+
+OUT_TEXTS = ["plain", "line\nbreak", "cr\rlf\r\n", "sep  \u0085", "nul\x00", "quote\"\\", "astral \U0001F600", "é€", ""]
+OUT_SHAPES = ["typedReq", "typedNotif", "typedResp", "typedErr", "dict", "str", "badObject", "badDict", "badSurrogateStr"]
+OUT_BAD = {"badObject", "badDict", "badSurrogateStr"}
+
+
+def make_item(shape, n, text, rng):
+    """returns (item to put on the write stream, expected decoded value or None)"""
+    from chuk_mcp.protocol.messages.json_rpc_message import JSONRPCRequest, JSONRPCNotification, JSONRPCResponse, JSONRPCError
+
+    payload = {"marker": n, "t": text, "nested": {"k": [text, None, 1.5, {"x": text}]}, "nil": None}
+    shown = {"marker": n, "t": text, "nested": {"k": [text, None, 1.5, {"x": text}]}}
+    if shape == "typedReq":
+        return JSONRPCRequest(jsonrpc="2.0", id="i%d" % n, method="tools/call", params=payload), {"jsonrpc": "2.0", "id": "i%d" % n, "method": "tools/call", "params": payload}
+    if shape == "typedNotif":
+        if n % 2:
+            return JSONRPCNotification(jsonrpc="2.0", method="notifications/x", params=None), {"jsonrpc": "2.0", "method": "notifications/x"}
+        return JSONRPCNotification(jsonrpc="2.0", method="notifications/x", params=payload), {"jsonrpc": "2.0", "method": "notifications/x", "params": payload}
+    if shape == "typedResp":
+        return JSONRPCResponse(jsonrpc="2.0", id=n, result=payload), {"jsonrpc": "2.0", "id": n, "result": payload}
+    if shape == "typedErr":
+        e = {"code": -32000 - n, "message": text, "data": payload}
+        return JSONRPCError(jsonrpc="2.0", id="e%d" % n, error=e), {"jsonrpc": "2.0", "id": "e%d" % n, "error": e}
+    if shape == "dict":
+        d = {"jsonrpc": "2.0", "id": n, "method": "m/" + text, "params": payload}
+        return d, d
+    if shape == "str":
+        d = {"jsonrpc": "2.0", "id": n, "result": shown}
+        return json.dumps(d, ensure_ascii=rng.random() < 0.5, separators=(",", ":")), d
+    if shape == "badObject":
+        return object(), None
+    if shape == "badDict":
+        return {"jsonrpc": "2.0", "id": n, "params": {"o": object(), "marker": n}}, None
+    if shape == "badSurrogateStr":
+        return '{"jsonrpc":"2.0","id":%d,"result":{"t":"\ud800"}}' % n, None
+    raise ValueError(shape)
+
+
+def _omit_none_top(x):
+    """typed messages are written with exclude_none: absent optional members are omitted -
+    nested nulls inside params/result must survive"""
+    return x
+
+
+def run_out(cases, seed=0):
+    """cases: list of scripts; script = list of steps: {"op": "Accept", "shape", "text"} | {"op": "CloseWrite"} |
+    {"op": "Idle"}.  Returns event lists for StdioOutTrace."""
+    import random
+    from chuk_mcp.transports.stdio.stdio_client import StdioClient
+
+    out = []
+
+    async def one(script, rng):
+        evs = []
+        expected = {}
+        with seam() as procs:
+            client = StdioClient(params())
+            async with client:
+                proc = procs[0]
+                seen_bytes = 0
+                n = 0
+
+                def harvest():
+                    nonlocal seen_bytes
+                    data = bytes(proc.stdin.data)
+                    new = data[seen_bytes:]
+                    # complete lines only
+                    while b"\n" in new:
+                        line, new = new.split(b"\n", 1)
+                        seen_bytes += len(line) + 1
+                        raw = line + b"\n"
+                        ok = b"\r" not in line
+                        idx = 0
+                        try:
+                            val = json.loads(line.decode("utf-8"))
+                            mk = None
+                            if isinstance(val, dict):
+                                for part in ("params", "result"):
+                                    if isinstance(val.get(part), dict) and "marker" in val[part]:
+                                        mk = val[part]["marker"]
+                                if mk is None and isinstance(val.get("error"), dict):
+                                    mk = (val["error"].get("data") or {}).get("marker")
+                                if mk is None and val.get("method") == "notifications/x":
+                                    mk = next((k for k, v in expected.items() if v == val and k not in used), None)
+                            if mk in expected and mk not in used:
+                                idx = mk
+                                used.add(mk)
+                                ok = ok and val == expected[mk]
+                            else:
+                                ok = False
+                        except Exception:
+                            ok = False
+                        evs.append({"e": "Line", "idx": idx, "ok": bool(ok)})
+                    if proc.stdin.closed and not any(e["e"] == "StdinClosed" for e in evs):
+                        evs.append({"e": "StdinClosed"})
+
+                used = set()
+                for st in script:
+                    if st["op"] == "Accept":
+                        n += 1
+                        item, exp = make_item(st["shape"], n, st["text"], rng)
+                        if exp is not None:
+                            expected[n] = exp
+                        evs.append({"e": "Accept", "shape": st["shape"]})
+                        await client._outgoing_send.send(item)
+                    elif st["op"] == "CloseWrite":
+                        evs.append({"e": "CloseWrite"})
+                        await client._outgoing_send.aclose()
+                    if st["op"] != "Accept" or st.get("idle", True):
+                        await idle()
+                        harvest()
+                await idle()
+                harvest()
+                evs.append({"e": "End"})
+        return evs
+
+    async def main():
+        rng = random.Random(seed)
+        for s in cases:
+            out.append(await one(s, rng))
+
+    vloop.run(main)
+    return out
